@@ -65,6 +65,16 @@ Definition ctor_quoted (s:bytes) : vres bytes :=
       | VErr => VErr | VPanic => VPanic | VUnmodelled => VUnmodelled
       end
   end.
+(* the same constructor over the trimming as it was before the repair of D8 (witness C01_quoted_ctor_pinned_refuted only) *)
+Definition ctor_quoted_pinned (s:bytes) : vres bytes :=
+  match av_utf8 s with
+  | None => VErr
+  | Some cps =>
+      match av_formatted_pinned s cps with
+      | VOk q => if 509 <? len q then VErr else VOk q
+      | VErr => VErr | VPanic => VPanic | VUnmodelled => VUnmodelled
+      end
+  end.
 (* Realm::new first runs the OpaqueString profile (prepare) on its input (modelled on ASCII: VUnmodelled otherwise) *)
 Definition ctor_realm (s:bytes) : vres bytes :=
   match av_precis s with
@@ -75,7 +85,8 @@ Definition ctor_of (ty:N) (s:bytes) : vres bytes := if ty =? 20 then ctor_realm 
 (* does the stored value survive encode + decode? (the encoder writes the bytes as they are) *)
 Definition quoted_roundtrips (q:bytes) : bool :=
   match av_dec_quoted_string q with VOk q' => av_bytes_eqb q' q | _ => false end.
-(* class of a constructor output: 0 = fine, 1 = accepted but does not survive the round trip (known finding D8) *)
+(* class of a constructor output: 0 = fine, 1 = accepted but does not survive the round trip (defect D8; with the repaired
+   trimming the class is empty: Proofs/QuotedCtorProofs.v ctor_class_zero — kept as a monitor class of the driver) *)
 Definition ctor_class (ty:N) (s:bytes) : N :=
   match ctor_of ty s with VOk q => if quoted_roundtrips q then 0 else 1 | _ => 0 end.
 
